@@ -4,10 +4,21 @@
 //!   dec w=<decoder> a=<args> k=<hex key> d=<len>:<fill>:<off>=<hex>,...   one decoder call on one byte string
 //!        (file headers, page header, leaf / interior / HNSW page accessors, ArrayView getters), under
 //!        catch_unwind -> compared with Model/StoredBytes.v, PageAccess.v, ArrayView.v inside Coq
-//!   xp <kind> ...                                                        EXPLORATION, no model (see below)
+//!   fk k=<hex key> d=<desc>      EXPLORATION, no model: LeafNode::from_page + find_key on a corrupted leaf page
+//!   db t=<template> f=<file> e=<edits>   EXPLORATION, no model: a copy of a real database directory (template 0:
+//!        closed after a checkpoint; template 1: copied while open with WAL frames not yet checkpointed) with one
+//!        file corrupted (edits: set:<off>:<hex> fill:<off>:<len>:<byte> trunc:<len> ext:<hex> copy:<from>:<to>:<len>,
+//!        joined by ';'), then Database::open + full scans + point lookups + writes + close, in a CHILD process
+//!        (`c23 worker`) so that aborts and hangs are observed (5 s watchdog, re-checked alone with 20 s)
 //! Modes: gen (with --lines), search (oracle only: any panic / abort / hang), worker (internal).
 use std::collections::BTreeMap;
+use std::io::{BufRead, BufReader, Write};
+use std::path::{Path, PathBuf};
+use std::process::{Child, Command, Stdio};
+use std::sync::mpsc;
+use std::time::Duration;
 use tvh::*;
+use turdb::Database;
 use turdb::btree::{InteriorNode, InteriorNodeMut, LeafNode, LeafNodeMut};
 use turdb::hnsw::storage::{HnswFileHeader, HnswPage, HnswPageRef};
 use turdb::hnsw::{DistanceFunction, NodeId, QuantizationType};
@@ -498,12 +509,432 @@ fn dec_cases(rng: &mut Rng, thorough: bool) -> Vec<DecCase> {
     out
 }
 
+// ====================================================================== exploration 1: find_key on corrupted leaves
+#[derive(Clone, Debug, PartialEq)]
+enum XOut { Ok(u32, u32), Panic(String), Timeout, Abort }
+
+static PANIC_AT: std::sync::Mutex<Option<String>> = std::sync::Mutex::new(None);
+fn install_site_hook() {
+    std::panic::set_hook(Box::new(|info| {
+        let loc = info.location().map(|l| format!("{}:{}:{}", l.file(), l.line(), l.column())).unwrap_or_else(|| "?".into());
+        let p = info.payload();
+        let msg = if let Some(s) = p.downcast_ref::<&str>() { s.to_string() } else if let Some(s) = p.downcast_ref::<String>() { s.clone() } else { "panic".into() };
+        let mut g = PANIC_AT.lock().unwrap_or_else(|e| e.into_inner());
+        if g.is_none() { *g = Some(format!("{} | {}", loc, msg.replace('\n', " "))); }
+    }));
+}
+fn take_site() -> String { PANIC_AT.lock().unwrap_or_else(|e| e.into_inner()).take().unwrap_or_else(|| "? | panic".into()) }
+
+/// source file of a panic location -> small code (0 = outside src)
+fn file_code(loc: &str) -> u32 {
+    let f = loc.split(':').next().unwrap_or("");
+    let f = f.trim_start_matches("/repo/");
+    const FILES: [&str; 13] = ["src/btree/leaf.rs", "src/btree/interior.rs", "src/btree/simd_scan.rs", "src/storage/mmap.rs", "src/storage/file_manager.rs",
+        "src/storage/wal.rs", "src/storage/freelist.rs", "src/storage/toast.rs", "src/records/view.rs", "src/records/jsonb.rs", "src/records/array.rs",
+        "src/schema/persistence.rs", "src/types/owned_value.rs"];
+    if let Some(i) = FILES.iter().position(|x| *x == f) { return i as u32 + 1; }
+    if f.starts_with("src/btree") { return 20; }
+    if f.starts_with("src/storage") { return 21; }
+    if f.starts_with("src/records") { return 22; }
+    if f.starts_with("src/encoding") { return 23; }
+    if f.starts_with("src/hnsw") { return 24; }
+    if f.starts_with("src/schema") { return 25; }
+    if f.starts_with("src/database") { return 26; }
+    if f.starts_with("src/sql") { return 27; }
+    if f.starts_with("src/types") { return 28; }
+    if f.starts_with("src/") { return 29; }
+    0
+}
+/// panic message -> class: 3 arithmetic overflow, 4 index / slice out of bounds, 5 unwrap / expect, 6 division by zero,
+/// 7 capacity / allocation, 9 explicit (unreachable, assert), 0 other
+fn msg_class(m: &str) -> u32 {
+    if m.contains("with overflow") { 3 }
+    else if m.contains("index out of bounds") || m.contains("out of range for slice") || m.contains("slice index starts at") || m.contains("out of bounds") || m.contains("mid > len") { 4 }
+    else if m.contains("called `Option::unwrap()`") || m.contains("called `Result::unwrap()`") || m.contains("corrupted") || m.contains("expect") { 5 }
+    else if m.contains("divide by zero") || m.contains("divisor of zero") { 6 }
+    else if m.contains("capacity overflow") || m.contains("allocation") { 7 }
+    else if m.contains("unreachable") || m.contains("assertion") || m.contains("not implemented") { 9 }
+    else { 0 }
+}
+fn xout_term(o: &XOut) -> String {
+    match o {
+        XOut::Ok(a, b) => format!("(XOk {} {})", a, b),
+        XOut::Panic(m) => { let mut it = m.splitn(2, " | "); let loc = it.next().unwrap_or(""); let msg = it.next().unwrap_or(""); format!("(XPanic {} {})", file_code(loc), msg_class(msg)) }
+        XOut::Timeout => "XTimeout".into(),
+        XOut::Abort => "XAbort".into(),
+    }
+}
+
+struct FkCase { d: Vec<u8>, key: Vec<u8>, kind: &'static str }
+fn run_fk(c: &FkCase) -> XOut {
+    let d = c.d.clone(); let key = c.key.clone();
+    let _ = take_site();
+    match catch(move || LeafNode::from_page(&d).map(|n| { let _ = n.find_key(&key); })) {
+        Caught::Done(Ok(())) => XOut::Ok(1, 0),
+        Caught::Done(Err(_)) => XOut::Ok(0, 1),
+        Caught::Panicked(_) => XOut::Panic(take_site()),
+    }
+}
+fn fk_cases(rng: &mut Rng, n: usize, out: &mut Vec<FkCase>) {
+    for cc in [2045u16, 2046, 2053, 2054, 2061, 4090, 4091, 4100, 8191, 32768, 65535] {
+        let mut p = vec![0u8; PAGE]; p[0] = 2; put(&mut p, 2, &le(cc as u64, 2));
+        for key in [vec![], vec![0u8, 0, 0, 0], vec![0u8, 0, 0, 1], vec![255u8; 5]] { out.push(FkCase { d: p.clone(), key, kind: "fk_boundary" }); }
+    }
+    for _ in 0..n {
+        let (mut p, keys) = valid_leaf(rng);
+        let kind = match mutate_page(rng, &mut p, 24, 8, 2) { "page_valid" => "fk_valid", "page_count_edit" | "page_count_plus" => "fk_count_edit", "page_slot_edit" => "fk_slot_edit", _ => "fk_other_edit" };
+        let key = match rng.below(4) { 0 if !keys.is_empty() => rng.pick(&keys).clone(), 1 => vec![0, 0, 0, rng.next() as u8], _ => rand_key(rng) };
+        out.push(FkCase { d: p, key, kind });
+    }
+}
+fn fk_replay(c: &FkCase, ds: &Desc) -> String { format!("fk k={} d={}", hex(&c.key), desc_line(ds)) }
+fn parse_fk(l: &str) -> Option<FkCase> {
+    let r = l.strip_prefix("fk ")?;
+    let mut m: BTreeMap<&str, &str> = BTreeMap::new();
+    for tok in r.split(' ') { if let Some((k, v)) = tok.split_once('=') { m.insert(k, v); } }
+    Some(FkCase { key: unhex(m.get("k").copied().unwrap_or("")), d: parse_desc(m.get("d").copied().unwrap_or("0:0:")), kind: "replay" })
+}
+fn fk_class(c: &FkCase, o: &XOut) -> u32 { if matches!(o, XOut::Panic(_)) && u16at(&c.d, 2) > 2045 { 8 } else { 0 } }
+fn push_fk(w: &mut CaseWriter, c: &FkCase) -> XOut {
+    let ds = describe(&c.d);
+    let o = run_fk(c);
+    let cc = u16at(&c.d, 2);
+    let term = format!("Xp 1 [{}] {}", cc, xout_term(&o));
+    w.push(term, fk_replay(c, &ds), c.d.len() == PAGE && c.d[0] == 2, c.kind);
+    o
+}
+
+// ====================================================================== exploration 2: corrupted database directories
+const SETUP: [&str; 9] = [
+    "CREATE TABLE t1 (id INT PRIMARY KEY, a INT, b TEXT, c FLOAT, d BLOB, bo BOOLEAN, j JSONB)",
+    "CREATE TABLE t2 (id INT PRIMARY KEY, x INT, y TEXT)",
+    "CREATE TABLE t3 (k TEXT PRIMARY KEY, v VECTOR(3), n BIGINT)",
+    "CREATE INDEX i1a ON t1 (a)",
+    "CREATE INDEX i2y ON t2 (y)",
+    "INSERT INTO t1 (id, a, b, c, bo) VALUES (1, 10, 'one', 1.5, TRUE), (2, 20, 'two', -2.25, FALSE), (3, NULL, NULL, NULL, NULL), (4, -5, 'héllo wörld', 0.0, TRUE)",
+    "INSERT INTO t1 (id, a, j) VALUES (6, 60, '{\"a\": [1, 2, {\"b\": null}], \"c\": \"x\"}')",
+    "INSERT INTO t3 (k, v, n) VALUES ('p', '[1.0, 2.0, 3.0]', 4000000000), ('q', '[0.0, 0.0, 0.0]', -4000000000)",
+    "INSERT INTO t1 (id, a, d) VALUES (7, 70, x'00ff10')",
+];
+const SCRIPT: [&str; 14] = [
+    "Q SELECT * FROM t1", "Q SELECT * FROM t2", "Q SELECT * FROM t3", "Q SELECT COUNT(*) FROM t2",
+    "Q SELECT * FROM t2 WHERE id = 1500", "Q SELECT * FROM t1 WHERE a = 20", "Q SELECT * FROM t2 WHERE y = 'y77'",
+    "Q SELECT id, b FROM t1 WHERE id = 5", "Q SELECT * FROM t2 ORDER BY x LIMIT 5",
+    "E INSERT INTO t2 (id, x, y) VALUES (900001, 1, 'new')", "E UPDATE t1 SET a = 11 WHERE id = 1", "E DELETE FROM t2 WHERE id = 7",
+    "E INSERT INTO t1 (id, a, b) VALUES (900002, 5, 'fresh')", "Q SELECT COUNT(*) FROM t1",
+];
+fn fill_template(db: &Database) {
+    for s in SETUP { db.execute(s).unwrap_or_else(|e| panic!("setup statement failed: {} : {}", s, e)); }
+    // a value big enough to be moved to the TOAST table
+    let big: String = (0..3000).map(|i| (b'a' + (i % 26) as u8) as char).collect();
+    db.execute(&format!("INSERT INTO t1 (id, a, b) VALUES (5, 50, '{}')", big)).expect("toast row");
+    // enough rows for several leaf pages below an interior root
+    for chunk in 0..15 {
+        let vals: Vec<String> = (0..200).map(|i| { let id = chunk * 200 + i + 1; format!("({}, {}, 'y{}')", id, (id * 7919) % 1000, id % 100) }).collect();
+        db.execute(&format!("INSERT INTO t2 (id, x, y) VALUES {}", vals.join(", "))).expect("bulk rows");
+    }
+}
+fn copy_dir(src: &Path, dst: &Path) -> std::io::Result<()> {
+    std::fs::create_dir_all(dst)?;
+    for e in std::fs::read_dir(src)? {
+        let e = e?;
+        let to = dst.join(e.file_name());
+        if e.file_type()?.is_dir() { copy_dir(&e.path(), &to)?; } else { std::fs::copy(e.path(), &to)?; }
+    }
+    Ok(())
+}
+fn list_files(root: &Path, rel: &Path, out: &mut Vec<(String, u64)>) {
+    if let Ok(rd) = std::fs::read_dir(root.join(rel)) {
+        let mut es: Vec<_> = rd.filter_map(|e| e.ok()).collect();
+        es.sort_by_key(|e| e.file_name());
+        for e in es {
+            let r = rel.join(e.file_name());
+            if e.path().is_dir() { list_files(root, &r, out); } else { out.push((r.to_string_lossy().into_owned(), e.metadata().map(|m| m.len()).unwrap_or(0))); }
+        }
+    }
+}
+/// template 0: closed after checkpoint; template 1: copied while the database is open with WAL frames pending
+fn build_templates(base: &Path) {
+    let t0 = base.join("tmpl0");
+    let _ = std::fs::remove_dir_all(&t0);
+    { let db = Database::create(&t0).expect("template 0"); fill_template(&db); let _ = db.checkpoint(); let _ = db.close(); }
+    let t1 = base.join("tmpl1");
+    let live = base.join("tmpl1-live");
+    let _ = std::fs::remove_dir_all(&t1); let _ = std::fs::remove_dir_all(&live);
+    {
+        let db = Database::create(&live).expect("template 1");
+        let _ = db.execute("PRAGMA wal=ON");
+        fill_template(&db);
+        copy_dir(&live, &t1).expect("copy live template");
+        let _ = db.close();
+    }
+    let _ = std::fs::remove_dir_all(&live);
+}
+
+#[derive(Clone, Debug)]
+enum Edit { Set(u64, Vec<u8>), Fill(u64, u64, u8), Trunc(u64), Ext(Vec<u8>), Copy(u64, u64, u64) }
+fn edits_line(es: &[Edit]) -> String {
+    es.iter().map(|e| match e {
+        Edit::Set(o, b) => format!("set:{}:{}", o, hex(b)), Edit::Fill(o, n, b) => format!("fill:{}:{}:{}", o, n, b),
+        Edit::Trunc(n) => format!("trunc:{}", n), Edit::Ext(b) => format!("ext:{}", hex(b)), Edit::Copy(a, b, n) => format!("copy:{}:{}:{}", a, b, n),
+    }).collect::<Vec<_>>().join(";")
+}
+fn parse_edits(s: &str) -> Vec<Edit> {
+    s.split(';').filter_map(|e| {
+        let p: Vec<&str> = e.split(':').collect();
+        let n = |i: usize| p.get(i).and_then(|x| x.parse::<u64>().ok()).unwrap_or(0);
+        match p.first().copied() {
+            Some("set") => Some(Edit::Set(n(1), unhex(p.get(2).copied().unwrap_or("")))),
+            Some("fill") => Some(Edit::Fill(n(1), n(2).min(1 << 22), n(3) as u8)),
+            Some("trunc") => Some(Edit::Trunc(n(1))),
+            Some("ext") => Some(Edit::Ext(unhex(p.get(1).copied().unwrap_or("")))),
+            Some("copy") => Some(Edit::Copy(n(1), n(2), n(3).min(1 << 22))),
+            _ => None,
+        }
+    }).collect()
+}
+fn apply_edits(path: &Path, es: &[Edit]) {
+    let mut d = std::fs::read(path).unwrap_or_default();
+    for e in es {
+        match e {
+            Edit::Set(o, b) => { for (k, x) in b.iter().enumerate() { let i = *o as usize + k; if i < d.len() { d[i] = *x; } } }
+            Edit::Fill(o, n, b) => { for k in 0..*n as usize { let i = *o as usize + k; if i < d.len() { d[i] = *b; } } }
+            Edit::Trunc(n) => d.truncate(*n as usize),
+            Edit::Ext(b) => d.extend_from_slice(b),
+            Edit::Copy(a, b, n) => { for k in 0..*n as usize { let (i, j) = (*a as usize + k, *b as usize + k); if i < d.len() && j < d.len() { d[j] = d[i]; } } }
+        }
+    }
+    let _ = std::fs::write(path, d);
+}
+/// open + scans + lookups + writes + close; (calls that returned Ok, calls that returned Err)
+fn run_script(dir: &Path, wal: bool) -> (u32, u32) {
+    let (mut ok, mut er) = (0u32, 0u32);
+    let mut tally = |r: bool| { if r { ok += 1 } else { er += 1 } };
+    let db = match Database::open(dir) { Ok(d) => { tally(true); d } Err(_) => { tally(false); return (ok, er); } };
+    if wal { tally(db.execute("PRAGMA wal=ON").is_ok()); }
+    for op in SCRIPT {
+        let (code, sql) = op.split_at(2);
+        if code.starts_with('Q') { tally(db.query(sql).is_ok()); } else { tally(db.execute(sql).is_ok()); }
+    }
+    tally(db.checkpoint().is_ok());
+    tally(db.close().is_ok());
+    (ok, er)
+}
+fn worker_main(a: &Args) {
+    install_site_hook();
+    let base = a.out.clone();
+    build_templates(&base);
+    let stdin = std::io::stdin();
+    let stdout = std::io::stdout();
+    println!("READY");
+    let _ = stdout.lock().flush();
+    let mut n = 0u64;
+    for line in stdin.lock().lines() {
+        let line = match line { Ok(l) => l, Err(_) => break };
+        // <template> <relative file> <edits>
+        let mut it = line.splitn(3, ' ');
+        let t: u32 = it.next().and_then(|x| x.parse().ok()).unwrap_or(0);
+        let f = it.next().unwrap_or("").to_string();
+        let es = parse_edits(it.next().unwrap_or(""));
+        n += 1;
+        let dir = base.join(format!("db{}", n));
+        let _ = std::fs::remove_dir_all(&dir);
+        copy_dir(&base.join(format!("tmpl{}", t.min(1))), &dir).expect("copy template");
+        if !f.is_empty() && !f.contains("..") { apply_edits(&dir.join(&f), &es); }
+        let d2 = dir.clone();
+        let r = std::panic::catch_unwind(std::panic::AssertUnwindSafe(|| run_script(&d2, t == 1)));
+        let _ = std::fs::remove_dir_all(&dir);
+        match r {
+            Ok((ok, er)) => { println!("R ok {} {}", ok, er); let _ = stdout.lock().flush(); }
+            Err(_) => { println!("R panic {}", take_site()); let _ = stdout.lock().flush(); return; }
+        }
+    }
+}
+
+// ---------------------------------------------------------------- parent side
+struct Worker { child: Child, rx: mpsc::Receiver<String>, dir: PathBuf }
+fn tmp_base() -> PathBuf { let shm = Path::new("/dev/shm"); if shm.is_dir() { shm.to_path_buf() } else { PathBuf::from("/verif/build/tmp") } }
+impl Worker {
+    fn spawn(tag: &str) -> Worker {
+        let dir = tmp_base().join(format!("c23-{}-{}", std::process::id(), tag));
+        let _ = std::fs::remove_dir_all(&dir);
+        std::fs::create_dir_all(&dir).expect("worker dir");
+        let exe = std::env::current_exe().expect("exe");
+        // address-space limit: a runaway allocation must end as an abort of the child, not as memory pressure on the machine
+        let mut child = Command::new("sh").arg("-c").arg("ulimit -v 4000000; exec \"$0\" worker --out \"$1\"").arg(exe).arg(&dir)
+            .stdin(Stdio::piped()).stdout(Stdio::piped()).stderr(Stdio::null()).spawn().expect("spawn worker");
+        let out = child.stdout.take().unwrap();
+        let (tx, rx) = mpsc::channel();
+        std::thread::spawn(move || { for l in BufReader::new(out).lines() { match l { Ok(l) => { if tx.send(l).is_err() { break; } } Err(_) => break } } });
+        let w = Worker { child, rx, dir };
+        match w.rx.recv_timeout(Duration::from_secs(300)) { Ok(l) if l == "READY" => {}, other => panic!("worker did not start: {:?}", other) }
+        w
+    }
+    fn run(&mut self, line: &str, timeout: Duration) -> XOut {
+        let sin = self.child.stdin.as_mut().unwrap();
+        if writeln!(sin, "{}", line).and_then(|_| sin.flush()).is_err() { return XOut::Abort; }
+        match self.rx.recv_timeout(timeout) {
+            Ok(l) => {
+                if let Some(r) = l.strip_prefix("R ok ") {
+                    let mut it = r.split(' ');
+                    XOut::Ok(it.next().and_then(|x| x.parse().ok()).unwrap_or(0), it.next().and_then(|x| x.parse().ok()).unwrap_or(0))
+                } else if let Some(r) = l.strip_prefix("R panic ") { XOut::Panic(r.to_string()) } else { XOut::Abort }
+            }
+            Err(mpsc::RecvTimeoutError::Timeout) => XOut::Timeout,
+            Err(mpsc::RecvTimeoutError::Disconnected) => XOut::Abort,
+        }
+    }
+    fn kill(mut self) { let _ = self.child.kill(); let _ = self.child.wait(); let _ = std::fs::remove_dir_all(&self.dir); }
+}
+#[derive(Clone)]
+struct DbCase { t: u32, f: String, es: Vec<Edit>, kind: &'static str }
+fn db_line(c: &DbCase) -> String { format!("{} {} {}", c.t, c.f, edits_line(&c.es)) }
+fn db_replay(c: &DbCase) -> String { format!("db t={} f={} e={}", c.t, c.f, edits_line(&c.es)) }
+fn parse_db(l: &str) -> Option<DbCase> {
+    let r = l.strip_prefix("db ")?;
+    let mut m: BTreeMap<&str, &str> = BTreeMap::new();
+    for tok in r.split(' ') { if let Some((k, v)) = tok.split_once('=') { m.insert(k, v); } }
+    Some(DbCase { t: m.get("t")?.parse().ok()?, f: m.get("f")?.to_string(), es: parse_edits(m.get("e").copied().unwrap_or("")), kind: "replay" })
+}
+fn run_db_cases(cases: &[DbCase], nw: usize) -> Vec<XOut> {
+    let n = cases.len();
+    let mut results: Vec<Option<XOut>> = vec![None; n];
+    let chunks: Vec<Vec<usize>> = (0..nw).map(|k| (0..n).filter(|i| i % nw == k).collect()).collect();
+    let outs: Vec<Vec<(usize, XOut)>> = std::thread::scope(|sc| {
+        let hs: Vec<_> = chunks.iter().enumerate().map(|(k, idxs)| {
+            sc.spawn(move || {
+                let mut res = vec![];
+                if idxs.is_empty() { return res; }
+                let mut gen = 0;
+                let mut w = Worker::spawn(&format!("{}-{}", k, gen));
+                for &i in idxs {
+                    let line = db_line(&cases[i]);
+                    let mut o = w.run(&line, Duration::from_secs(5));
+                    if o == XOut::Timeout {
+                        // re-check alone with a generous limit: machine load must not look like a hang
+                        w.kill(); gen += 1; w = Worker::spawn(&format!("{}-{}", k, gen));
+                        o = w.run(&line, Duration::from_secs(20));
+                    }
+                    if !matches!(o, XOut::Ok(..)) { w.kill(); gen += 1; w = Worker::spawn(&format!("{}-{}", k, gen)); }
+                    res.push((i, o));
+                }
+                w.kill();
+                res
+            })
+        }).collect();
+        hs.into_iter().map(|h| h.join().expect("worker thread")).collect()
+    });
+    for v in outs { for (i, o) in v { results[i] = Some(o); } }
+    results.into_iter().map(|o| o.unwrap_or(XOut::Abort)).collect()
+}
+/// kind of the corrupted file: 1 turdb.meta, 2 turdb.catalog, 3 table .tbd, 4 toast .tbd, 5 .idx, 6 wal segment, 7 system table, 8 other
+fn file_kind(f: &str) -> u32 {
+    if f == "turdb.meta" { 1 } else if f == "turdb.catalog" { 2 } else if f.starts_with("wal/") || f.starts_with("wal\\") { 6 }
+    else if f.starts_with("turdb_catalog/") { 7 } else if f.ends_with("_toast.tbd") { 4 } else if f.ends_with(".tbd") { 3 } else if f.ends_with(".idx") { 5 } else { 8 }
+}
+/// where the (first) edit lands: 1 file header (first 128 bytes), 2 page header (first 16 bytes of a page), 3 slot area (first 1 KiB
+/// of a page), 4 elsewhere in a page, 5 truncation, 6 extension, 7 page copy
+fn region(e: &Edit) -> u32 {
+    let at = |o: u64| if o < 128 { 1 } else if o % 16384 < 16 { 2 } else if o % 16384 < 1024 { 3 } else { 4 };
+    match e { Edit::Set(o, _) => at(*o), Edit::Fill(o, _, _) => at(*o), Edit::Trunc(_) => 5, Edit::Ext(_) => 6, Edit::Copy(..) => 7 }
+}
+fn db_feat(c: &DbCase) -> Vec<u64> {
+    let e = c.es.first();
+    let off = match e { Some(Edit::Set(o, _)) | Some(Edit::Fill(o, _, _)) => *o, Some(Edit::Trunc(n)) => *n, _ => 0 };
+    vec![file_kind(&c.f) as u64, e.map(region).unwrap_or(0) as u64, c.t as u64, off / 16384, off % 16384]
+}
+const ODD16: [u64; 14] = [0, 1, 15, 16, 24, 2045, 2046, 4096, 8191, 16383, 16384, 16385, 32768, 65535];
+fn gen_db_case(rng: &mut Rng, files: &[Vec<(String, u64)>]) -> DbCase {
+    let t = if rng.chance(1, 4) { 1 } else { 0 };
+    let fs = &files[t as usize];
+    // weight small control files up, they are few among many page files
+    let f = if rng.chance(1, 6) { fs.iter().find(|x| x.0 == "turdb.catalog").unwrap_or(&fs[0]) }
+            else if rng.chance(1, 12) { fs.iter().find(|x| x.0 == "turdb.meta").unwrap_or(&fs[0]) }
+            else if t == 1 && rng.chance(1, 2) { let ws: Vec<&(String, u64)> = fs.iter().filter(|x| x.0.starts_with("wal/")).collect(); if ws.is_empty() { rng.pick(fs) } else { *rng.pick(&ws) } }
+            else { rng.pick(fs) };
+    let len = f.1;
+    let pages = (len / 16384).max(1);
+    let pg = rng.below(pages);
+    let off_in = |rng: &mut Rng| -> u64 { match rng.below(5) { 0 => rng.below(128.min(len.max(1))), 1 => pg * 16384 + rng.below(16), 2 => pg * 16384 + 16 + rng.below(200), _ => rng.below(len.max(1)) } };
+    let (es, kind): (Vec<Edit>, &'static str) = match rng.below(13) {
+        0 | 1 => { let o = off_in(rng); (vec![Edit::Set(o, vec![0]), Edit::Copy(o, o, 0)], "db_bitflip") }   // placeholder, replaced below
+        2 => { let o = off_in(rng); let n = 1 + rng.below(8) as usize; (vec![Edit::Set(o, rng.bytes(n))], "db_random_bytes") }
+        3 => { let n = *rng.pick(&[16u64, 128, 4096, 16384]); let o = if rng.chance(1, 2) { pg * 16384 } else { rng.below(len.max(1)) }; (vec![Edit::Fill(o, n, 0)], "db_zero_run") }
+        4 => { let n = *rng.pick(&[16u64, 128, 4096, 16384]); let o = if rng.chance(1, 2) { pg * 16384 } else { rng.below(len.max(1)) }; (vec![Edit::Fill(o, n, 255)], "db_ff_run") }
+        5 => { let fo = *rng.pick(&[2u64, 4, 6, 12]); let v = *rng.pick(&ODD16); (vec![Edit::Set(pg * 16384 + fo, le(v, 2))], "db_page_header_field") }
+        6 => { let j = rng.below(40); let ss = *rng.pick(&[8u64, 12]); let base = if ss == 8 { 24 } else { 16 }; let v = *rng.pick(&ODD16);
+               (vec![Edit::Set(pg * 16384 + base + j * ss + ss - 4 + 2 * rng.below(2), le(v, 2))], "db_slot_field") }
+        7 => { let fo = *rng.pick(&[16u64, 20, 24, 32, 36, 40, 48, 56, 64, 72]); let v = odd_u64(rng); let n = *rng.pick(&[4usize, 8]); (vec![Edit::Set(fo, le(v, n))], "db_file_header_field") }
+        8 => { let n = match rng.below(8) { 0 => 0, 1 => 1, 2 => 127, 3 => 128, 4 => 16383, 5 => len.saturating_sub(1), 6 => pg * 16384, _ => rng.below(len.max(1)) }; (vec![Edit::Trunc(n)], "db_truncate") }
+        9 => { let n = if rng.chance(1, 3) { 16384 } else { 1 + rng.below(100) as usize }; (vec![Edit::Ext(if n == 16384 { vec![rng.next() as u8; 64] } else { rng.bytes(n) })], "db_extend") }
+        10 => { let o = off_in(rng); let n = 16 + rng.below(48) as usize; (vec![Edit::Set(o, rng.bytes(n))], "db_random_run") }
+        11 => { let a = rng.below(pages); (vec![Edit::Copy(a * 16384, pg * 16384, 16384)], "db_page_copy") }
+        _ => { let o = pg * 16384 + 16 + rng.below(16368); let v: Vec<u8> = match rng.below(4) { 0 => vec![255; 9], 1 => vec![251, 255, 255, 255, 255], 2 => vec![249, 255, 255], _ => vec![250, 255, 255, 255] }; (vec![Edit::Set(o, v)], "db_varint") }
+    };
+    let mut c = DbCase { t, f: f.0.clone(), es, kind };
+    if kind == "db_bitflip" {
+        // a bit flip needs the current byte: expressed as xor through the template's bytes at generation time
+        let o = match &c.es[0] { Edit::Set(o, _) => *o, _ => 0 };
+        c.es = vec![Edit::Set(o, vec![0]), Edit::Fill(0, 0, (1u8) << rng.below(8))];
+    }
+    c
+}
+/// bit flips are resolved against the template bytes so that the replay line carries the final byte
+fn resolve_bitflips(cases: &mut [DbCase], base: &Path) {
+    for c in cases.iter_mut() {
+        if c.kind != "db_bitflip" { continue; }
+        let (o, mask) = match (&c.es[0], &c.es[1]) { (Edit::Set(o, _), Edit::Fill(_, _, m)) => (*o, *m), _ => continue };
+        let d = std::fs::read(base.join(format!("tmpl{}", c.t)).join(&c.f)).unwrap_or_default();
+        let cur = d.get(o as usize).copied().unwrap_or(0);
+        c.es = vec![Edit::Set(o, vec![cur ^ mask])];
+    }
+}
+/// harness-side classification of an exploration outcome (for `search` lines; authoritative: Corr/C23.v xp_class)
+fn db_class(feat: &[u64], o: &XOut) -> u32 {
+    let _ = (feat, o);
+    0
+}
+fn push_db(w: &mut CaseWriter, c: &DbCase, o: &XOut) {
+    let f: Vec<String> = db_feat(c).iter().map(|x| x.to_string()).collect();
+    let term = format!("Xp 2 {} {}", clist(&f), xout_term(o));
+    w.push(term, db_replay(c), true, c.kind);
+}
+/// the file lists of the two templates (built once in a scratch directory by this process)
+fn template_files() -> (PathBuf, Vec<Vec<(String, u64)>>) {
+    let base = tmp_base().join(format!("c23-{}-parent", std::process::id()));
+    let _ = std::fs::remove_dir_all(&base);
+    std::fs::create_dir_all(&base).expect("parent dir");
+    build_templates(&base);
+    let mut files = vec![];
+    for t in 0..2 { let mut v = vec![]; list_files(&base.join(format!("tmpl{}", t)), Path::new(""), &mut v); files.push(v); }
+    (base, files)
+}
+fn probe(a: &Args) {
+    let (base, files) = template_files();
+    for (t, fs) in files.iter().enumerate() { for (f, l) in fs { println!("tmpl{} {} {}", t, f, l); } }
+    let mut rng = Rng::new(a.seed);
+    let mut cases: Vec<DbCase> = (0..a.budget.min(100_000) as usize).map(|_| gen_db_case(&mut rng, &files)).collect();
+    resolve_bitflips(&mut cases, &base);
+    let outs = run_db_cases(&cases, 6);
+    let mut tally: BTreeMap<String, u32> = BTreeMap::new();
+    for (c, o) in cases.iter().zip(outs.iter()) {
+        let key = match o { XOut::Ok(a, b) => format!("ok {} {}", a, b), XOut::Panic(m) => format!("PANIC {}", m), XOut::Timeout => "TIMEOUT".into(), XOut::Abort => "ABORT".into() };
+        let e = tally.entry(key.clone()).or_insert(0);
+        *e += 1;
+        if *e <= 3 && !matches!(o, XOut::Ok(..)) { println!("{} <= {}", key, db_replay(c)); }
+    }
+    for (k, v) in &tally { println!("{:6} {}", v, k); }
+    let _ = std::fs::remove_dir_all(&base);
+}
+
 // ====================================================================== main
 fn main() {
     let a = Args::parse();
     match a.mode.as_str() {
         "gen" => gen(&a),
         "search" => search(&a),
+        "worker" => worker_main(&a),
+        "probe" => probe(&a),
         _ => { eprintln!("c23: unknown mode"); std::process::exit(2); }
     }
 }
